@@ -9,10 +9,13 @@ Cases (bytes ::= "hex" | (rep N B) | (cat bytes…)):
   (ptx (inst N) (text bytes) (wsched k…))                 Python `send_msg(N, text)`
   (prx (wire bytes) (rsched k…) (n K) [(sent (i bytes)…)]) Python `recv_msg` × K
   (ptx-legacy …) (prx-legacy …)                           the same against the pinned-commit functions
+  (srv (wire bytes) (rsched k…) (wsched k…) (reqs (inst script [respInst respText])…))
+                                                          the whole server script on one connection (fake `socket` module)
   (instfrom)                                              `Inst::from(v) as u8` for v = 0…255 and the seven enum codes
 Outputs print byte strings up to 48 bytes in hex and longer ones as (big LEN FNV64 first8 last8).
-Spec verdict: the frame on the wire is the one frame that carries the message (tx), the messages received are the
-messages sent (rx with a `sent` annotation: the wire is what the *other* end really wrote for them), no crash otherwise.
+Spec verdict, evaluated on the IMPLEMENTATION's answer (third column): the frame on the wire is the one frame that carries
+the message (tx), the messages received are the messages sent (rx with a `sent` annotation: the wire is what the *other*
+end really wrote for them), the server's answers are the evaluations of the requests in order (srv), no crash otherwise.
 inK: the id of the recorded finding when some payload of the case is longer than 65535 bytes.
 -/
 open ErgVerif ErgVerif.C25
@@ -94,7 +97,7 @@ def showPyRx : PyRx → String
 
 def joinOr (xs : List String) : String := if xs.isEmpty then "()" else " ".intercalate xs
 
-def doRtx (args : List Sexp) : Option (String × String × String) := do
+def doRtx (args : List Sexp) (impl : String) : Option (String × String × String) := do
   let inst ← (← field "inst" args).head? >>= Sexp.atomNat?
   let dx ← (← field "data" args).head?
   let data ← (match dx with | .atom "none" => some none | x => (evBytes x).map some)
@@ -103,13 +106,12 @@ def doRtx (args : List Sexp) : Option (String × String × String) := do
   let out := match rustSend ⟨[], ws⟩ inst data with
     | some w => "(wire " ++ pb w.written ++ ") ok"
     | none => "(wire \"\") (err \"failed to write whole buffer\")"
-  let spec := match rustSend ⟨[], ws⟩ inst data, idealFrame (instFrom inst) body with
-    | some w, some f => if w.written = f then "ok" else "viol:frame-differs-from-the-message"
-    | some _, none => "viol:size-field-cannot-carry-the-payload (size " ++ toString (rustSize data) ++ " for " ++ toString body.length ++ " bytes)"
-    | none, _ => "viol:send-failed"
+  let spec := match idealFrame (instFrom inst) body with
+    | some f => if impl = "(wire " ++ pb f ++ ") ok" then "ok" else "viol:frame-differs-from-the-message"
+    | none => "viol:size-field-cannot-carry-the-payload (size " ++ toString (rustSize data) ++ " for " ++ toString body.length ++ " bytes)"
   pure (out, spec, kOf [body])
 
-def doPtx (legacy : Bool) (args : List Sexp) : Option (String × String × String) := do
+def doPtx (legacy : Bool) (args : List Sexp) (impl : String) : Option (String × String × String) := do
   let inst ← (← field "inst" args).head? >>= Sexp.atomNat?
   let text ← (← field "text" args).head? >>= evBytes
   let ws ← nats (← field "wsched" args)
@@ -117,13 +119,18 @@ def doPtx (legacy : Bool) (args : List Sexp) : Option (String × String × Strin
   let out := match r with
     | .ok w => "(wire " ++ pb w.written ++ ") ok"
     | .error e => "(wire \"\") (err " ++ showPyErr e ++ ")"
-  let spec := if legacy ∨ inst > 255 then "-" else match r, idealFrame inst text with
-    | .ok w, some f => if w.written = f then "ok" else "viol:frame-differs-from-the-message"
-    | .ok _, none => "viol:sent-a-frame-for-a-payload-the-size-field-cannot-carry"
-    | .error _, _ => "viol:cannot-send (" ++ toString text.length ++ " bytes)"
+  let spec := if legacy ∨ inst > 255 then "-" else match idealFrame inst text with
+    | some f => if impl = "(wire " ++ pb f ++ ") ok" then "ok" else "viol:frame-differs-from-the-message"
+    | none => "viol:cannot-send (" ++ toString text.length ++ " bytes; the size field carries at most 65535)"
   pure (out, spec, kOf [text])
 
 def isCrash (impl : String) : Bool := impl.startsWith "crash"
+
+/-- the implementation's answer begins with exactly these items (the specification is evaluated on the implementation's
+    answer, in printed form: long byte strings are compared by length, FNV-64 and both ends) -/
+def startsWithItems (impl : String) (items : List String) : Bool :=
+  let e := joinOr items
+  items.isEmpty || impl = e || impl.startsWith (e ++ " ")
 
 def doRrx (args : List Sexp) (impl : String) : Option (String × String × String) := do
   let wire ← (← field "wire" args).head? >>= evBytes
@@ -138,7 +145,7 @@ def doRrx (args : List Sexp) (impl : String) : Option (String × String × Strin
     let expected : List (Option RMsg) := sent.map (fun m => some ⟨instFrom m.1, m.2.length, if m.2 = [] then none else some m.2⟩)
     let k := kOf (sent.map (·.2))
     if n < sent.length then pure (out, "-", k)
-    else if res.take sent.length = expected then pure (out, "ok", k)
+    else if startsWithItems impl (expected.map showRMsg) then pure (out, "ok", k)
     else pure (out, "viol:received-differs-from-sent", k)
 
 def doPrx (legacy : Bool) (args : List Sexp) (impl : String) : Option (String × String × String) := do
@@ -154,8 +161,50 @@ def doPrx (legacy : Bool) (args : List Sexp) (impl : String) : Option (String ×
     let expected : List PyRx := sent.map (fun m => .ok m.1 m.2)
     let k := kOf (sent.map (·.2))
     if legacy ∨ n < sent.length then pure (out, "-", k)
-    else if res.take sent.length = expected then pure (out, "ok", k)
+    else if startsWithItems impl (expected.map showPyRx) then pure (out, "ok", k)
     else pure (out, "viol:received-differs-from-sent", k)
+
+def showEnd : ServerEnd → String
+  | .normal => "normal"
+  | .died e => showPyErr e
+  | .outOfFuel => "out-of-fuel"
+
+/-- `(reqs (inst script [respInst respText])…)`: all requests on the wire in order; for the executed ones what evaluating
+    them answers (the evaluator of the case) -/
+def reqList (xs : List Sexp) : Option (List (Nat × Bytes × Option (Nat × Bytes))) :=
+  xs.mapM (fun x => match x with
+    | .list [i, b] => match Sexp.atomNat? i, evBytes b with
+      | some i, some b => some (i, b, none)
+      | _, _ => none
+    | .list [i, b, ri, rb] => match Sexp.atomNat? i, evBytes b, Sexp.atomNat? ri, evBytes rb with
+      | some i, some b, some ri, some rb => some (i, b, some (ri, rb))
+      | _, _, _, _ => none
+    | _ => none)
+
+def doSrv (args : List Sexp) (impl : String) : Option (String × String × String) := do
+  let wire ← (← field "wire" args).head? >>= evBytes
+  let rs ← nats (← field "rsched" args)
+  let ws ← nats (← field "wsched" args)
+  let reqs ← reqList (← field "reqs" args)
+  let execd := reqs.filter (fun r => r.1 = 6 ∨ r.1 = 2)
+  -- the evaluator of this case: the k-th executed request answers as annotated, provided the server received that script
+  let ev : Eval := fun hist _ text =>
+    match execd[hist.length]? with
+    | some (_, script, some resp) => if script = text then resp else (1, [63])
+    | _ => (1, [63])
+  let (w, e) := serverLoop ev (wire.length + 1) ⟨wire, rs⟩ ⟨[], ws⟩ []
+  let out := "(written " ++ pb w.written ++ ") (end " ++ showEnd e ++ ")"
+  -- specification: one answer per request, in order, up to and including the answer to Exit
+  let rec expected : List (Nat × Bytes × Option (Nat × Bytes)) → List (Nat × Bytes)
+    | [] => []
+    | (i, _, r) :: rest =>
+      if i = 5 then [(5, [])]
+      else (match r with | some resp => resp | none => (0, [])) :: expected rest
+  let k := kOf (reqs.map (fun r => r.2.1) ++ reqs.filterMap (fun r => r.2.2.map (·.2)))
+  let spec := match wireOf (expected reqs) with
+    | some f => if impl = "(written " ++ pb f ++ ") (end normal)" then "ok" else "viol:answers-differ-from-the-evaluations-of-the-requests"
+    | none => "viol:an-answer-cannot-be-framed (longer than 65535 bytes)"
+  pure (out, spec, k)
 
 def doInstFrom : String × String × String :=
   let vals := (List.range 256).map instFrom
@@ -170,12 +219,13 @@ def handle (line : String) : String :=
     match Sexp.parse input with
     | some (.list (.atom kind :: args)) =>
       let r : Option (String × String × String) :=
-        if kind = "rtx" then doRtx args
-        else if kind = "ptx" then doPtx false args
-        else if kind = "ptx-legacy" then doPtx true args
+        if kind = "rtx" then doRtx args impl
+        else if kind = "ptx" then doPtx false args impl
+        else if kind = "ptx-legacy" then doPtx true args impl
         else if kind = "rrx" then doRrx args impl
         else if kind = "prx" then doPrx false args impl
         else if kind = "prx-legacy" then doPrx true args impl
+        else if kind = "srv" then doSrv args impl
         else if kind = "instfrom" then some doInstFrom
         else none
       match r with
